@@ -24,6 +24,18 @@ def colSel (rc : RenderCfg) (col : Nat) : ColorSel :=
   else if Color.valid col && decide (rc.ti.colors ≠ 0) then .idx (Render.fitColor rc col % 256)
   else .default
 
+/-- the colours `op` (ResetFgBg) leaves in the pen: the defaults — except on aixterm (green on black) and pcansi (white on
+    black), whose `op` sets colours -/
+def opSel (rc : RenderCfg) : ColorSel × ColorSel :=
+  if rc.ti.resetFgBg = opAix then (.idx 2, .idx 0) else if rc.ti.resetFgBg = opPc then (.idx 7, .idx 0) else (.default, .default)
+
+/-- foreground / background of a style with colours `fg`, `bg`: sendFgBg (tscreen.go:760) writes `op` when either is
+    `ColorReset`, then the colour strings for the valid ones — so a colour for which nothing is written shows what `op` left -/
+def fgSel (rc : RenderCfg) (fg bg : Nat) : ColorSel :=
+  if colSel rc fg = .default ∧ (fg = colorReset ∨ bg = colorReset) then (opSel rc).1 else colSel rc fg
+def bgSel (rc : RenderCfg) (fg bg : Nat) : ColorSel :=
+  if colSel rc bg = .default ∧ (fg = colorReset ∨ bg = colorReset) then (opSel rc).2 else colSel rc bg
+
 /-- monochrome terminals (`Colors == 0`, tscreen.go:741-758): a valid foreground colour that is nearer to black than to
     white (`fit0` = `FindColor(fg, {black, white})`) is shown by flipping reverse video -/
 def monoFlip (rc : RenderCfg) (fg : Nat) : Bool :=
@@ -52,7 +64,7 @@ def textOf (bs : Bytes) : String := String.ofList (decodeText true bs)
 /-- **the SGR state a tcell `Style` denotes on the terminal `rc`** (attributes the description has no string for are
     not shown; underline follows the underline *style*, as the code does) -/
 def penOf (rc : RenderCfg) (s : Style) : Pen :=
-  { fg := colSel rc s.fg, bg := colSel rc s.bg,
+  { fg := fgSel rc s.fg s.bg, bg := bgSel rc s.fg s.bg,
     bold := bit s.attrs Render.attrBold && !rc.ti.bold.isEmpty,
     dim := bit s.attrs Render.attrDim && !rc.ti.dim.isEmpty,
     italic := bit s.attrs Render.attrItalic && !rc.ti.italic.isEmpty,
